@@ -10,7 +10,7 @@ from .. import conform, conv, env, files, monitors, oracles
 
 ID, TITLE, LEVEL = 'C01', 'write-then-read fidelity', 'exploration'
 RULE = ('case = one source cube (SEG-Y IBM/IEEE with 0-2 extended textual headers, written through segyio; samples '
-        'as segyio reads them back) x several valid (bits_per_voxel, blockshape) settings x routes {NumPy, SEG-Y/segyio, '
+        'as segyio reads them back; or a ZGY file written through pyzgy, converted by ZgyConverter / zgy2sgz and by the NumPy route) x several valid (bits_per_voxel, blockshape) settings x routes {NumPy, SEG-Y/segyio, '
         'SEG-Y/reduced-I/O, CLI in-process, CLI subprocess} x forced queue capacities {1,2,16}; monitors: read_volume() '
         'bitwise = O-ZFP image; every data-section cell intersecting the X4 extent bytewise = independent per-cell '
         'encoding; all routes byte-identical on the real extent; C03 conformance. distinct = (shape residues mod 4 '
@@ -77,6 +77,20 @@ def cases(tier, seed):
         out.append({'id': 'g:%s:%s:%d' % (rate, 'x'.join(map(str, bs)), i), 'src': src, 'rate': rate, 'bs': list(bs),
                     'routes': routes, 'spelling': spelled, 'qcap': rng.choice([None, 1, 2, 16]),
                     'cost': 1 + np.prod([oracles.pad(s, b) for s, b in zip(shape, bs)]) / 3e5})
+    # ZGY route on generated ZGY files (pyzgy's writer): every rate x layout class, axes of either sign, float sample axes
+    zg = []
+    for rate in oracles.VALID_RATES:
+        g = [s for s in grid if s[0] == rate]
+        zg.append(next(s for s in g if s[1][:2] == (4, 4)))
+        zg.append(rng.choice([s for s in g if s[1][2] == 4]))
+        zg.append(rng.choice([s for s in g if s[1][0] == 4 and s[1][1] != 4]))
+        zg.append(rng.choice([s for s in g if s[1][0] != 4 and s[1][2] != 4]))
+    if tier != 'quick':
+        zg = zg * 2 + rng.sample(grid, 100)
+    for i, (rate, bs) in enumerate(zg):
+        shape = shape_for(bs, rng, cap // 2)
+        out.append({'id': 'zgy:%s:%s:%d' % (rate, 'x'.join(map(str, bs)), i), 'zgy': conv.zgy_desc(rng, shape), 'rate': rate, 'bs': list(bs),
+                    'cli': i % 5 == 0, 'cost': 2 + np.prod([oracles.pad(s, b) for s, b in zip(shape, bs)]) / 3e5})
     # VDS / ZGY routes on the fixtures
     for rel, conv_name in [('vds/small.vds', 'VdsConverter'), ('zgy/small-32bit.zgy', 'ZgyConverter'), ('zgy/small-16bit.zgy', 'ZgyConverter'),
                            ('zgy/small-8bit.zgy', 'ZgyConverter'), ('zgy/small-float-samplerate.zgy', 'ZgyConverter')]:
@@ -148,6 +162,63 @@ def run_fixture_route(case, ctx):
             'key': case['id']}
 
 
+def run_zgy_case(case, ctx):
+    """Generated ZGY source -> ZgyConverter (API, CLI) and the NumPy route on the same samples."""
+    from seismic_zfp.read import SgzReader
+    src = conv.build_source(case['zgy'], ctx['scratch'])
+    D = src['data']
+    rate, bs = case['rate'], tuple(case['bs'])
+    img = oracles.image(D, rate)
+    bad, strata, counters = [], set(), {'conversions': 0, 'volumes_compared': 0, 'cells_compared': 0}
+    volumes = {}
+    routes = [('zgy', rate, bs), ('numpy', rate, bs)] + ([('zgy-cli', rate, (4, 4, int(2048 // rate)))] if case.get('cli') else [])
+    for route, r_, b_ in routes:
+        out = ctx['scratch'].file('out-%s.sgz' % route)
+        try:
+            if route == 'numpy':
+                conv.convert_numpy(D, out, r_, b_, ilines=src['ilines'], xlines=src['xlines'], samples=src['samples'])
+            else:
+                conv.convert_zgy(src['path'], out, r_, b_, cli=route == 'zgy-cli')
+        except monitors.ContractBreach:
+            raise
+        except Exception as e:  # noqa
+            bad.append({'sig': '%s:valid-setting-rejected-%s' % (route, type(e).__name__), 'detail': 'rate %r blockshape %r shape %s: %r' % (r_, b_, D.shape, e)})
+            continue
+        counters['conversions'] += 1
+        strata.update(['route:' + route + ('-generated' if route != 'numpy' else ''), 'rate:%s' % rate])
+        strata.add('zgy-layout:' + ('default' if b_[:2] == (4, 4) else 'zslice' if b_[2] == 4 else '4xNxM' if b_[0] == 4 else 'general'))
+        try:
+            with SgzReader(out) as r:
+                V = r.read_volume()
+        except Exception as e:  # noqa
+            bad.append({'sig': '%s:written-file-unreadable-%s' % (route, type(e).__name__), 'detail': 'rate %s bs %s shape %s: %r' % (rate, b_, D.shape, e)})
+            continue
+        counters['volumes_compared'] += 1
+        volumes[route] = V
+        if V.shape != img.shape or V.tobytes() != img.tobytes():
+            n = int((V != img).sum()) if V.shape == img.shape else -1
+            bad.append({'sig': '%s:read-volume-differs-from-codec-image' % route,
+                        'detail': 'rate %s blockshape %s shape %s: %d voxel(s) differ' % (rate, b_, D.shape, n)})
+        truth = {'shape': D.shape, 'rate': rate, 'bs': b_, 'ilines': src['ilines'], 'xlines': src['xlines'], 'samples': src['samples'],
+                 'ntraces': D.shape[0] * D.shape[1], 'data_image': img}
+        if route != 'numpy':
+            truth.update(source_code=10, fields=conv.zgy_truth_arrays(src))
+        elif float(src['samples'][0]) != int(src['samples'][0]):
+            del truth['samples']        # the NumPy route stores whole-millisecond start times only (domain of C05)
+        b, sp = conform.check(out, truth, tag=route + ':')
+        bad += b
+        if sp is not None and sp.ndb == sp.expected_ndb() and len(sp.raw) >= sp.footer0:
+            b, ncmp = check_bytes(sp, D, rate, route + ':')
+            bad += b
+            counters['cells_compared'] += ncmp
+    names = list(volumes)
+    for a, b2 in zip(names, names[1:]):
+        if volumes[a].tobytes() != volumes[b2].tobytes():
+            bad.append({'sig': 'routes-disagree:%s-vs-%s' % (a, b2), 'detail': 'rate %s bs %s shape %s' % (rate, bs, D.shape)})
+    return {'violations': bad, 'counters': counters, 'strata': sorted(strata),
+            'key': 'zgy|%s|%s|%s' % (rate, bs, tuple(s % 4 for s in D.shape)), 'nontrivial': counters['volumes_compared'] > 0}
+
+
 def run_case(case, ctx):
     if ctx['rng'].random() < 2 and not ctx.get('codec_ok'):
         failures = oracles.validate_codec(random.Random(7), 4)
@@ -156,6 +227,8 @@ def run_case(case, ctx):
         ctx['codec_ok'] = True
     if 'fixture' in case:
         return run_fixture_route(case, ctx)
+    if 'zgy' in case:
+        return run_zgy_case(case, ctx)
     from seismic_zfp.read import SgzReader
     rng = ctx['rng']
     src = conv.build_source(case['src'], ctx['scratch'])
@@ -226,7 +299,8 @@ def run_case(case, ctx):
 
 def finalize(tier, cases, results, counters, strata):
     reasons = []
-    need = ['route:numpy', 'route:segyio', 'route:iops', 'route:cli', 'route:cli-sub', 'route:VdsConverter', 'route:ZgyConverter',
+    need = ['route:zgy-generated', 'route:zgy-cli-generated', 'zgy-layout:default', 'zgy-layout:zslice', 'zgy-layout:4xNxM', 'zgy-layout:general',
+            'route:numpy', 'route:segyio', 'route:iops', 'route:cli', 'route:cli-sub', 'route:VdsConverter', 'route:ZgyConverter',
             'layout:default', 'layout:zslice', 'layout:4xNxM', 'layout:general', 'fmt:1', 'fmt:5', 'ext:0', 'ext:1', 'ext:2',
             'qcap:1', 'qcap:2', 'qcap:16', 'blocks:<1', 'blocks:>1', 'blocks:>2'] + ['res4:%d' % i for i in range(4)] + \
            ['rate:%s' % r for r in oracles.VALID_RATES]
